@@ -432,7 +432,7 @@ def cancelled_exit_case(ctx, workdir: str, transport_kind: str, k: int, how: str
     status, disk = registry_on_disk(path)
     if status != "ok" or disk != state["final"]:
         diff = first_difference(state["final"], disk) if status == "ok" else disk
-        ctx.violation("no-final-save-on-cancelled-exit",
+        ctx.violation("no-final-save-on-task-sweep" if how.startswith("cancel-all") else "no-final-save-on-cancelled-exit",
                       f"the session task was cancelled ({how}, k={k}, file {file_state}, transport {transport_kind}): after the "
                       f"context was left the file does not hold the final registry ({diff})", case)
 
@@ -1372,8 +1372,8 @@ def changed_file_between_sessions_case(ctx, workdir: str, transport_kind: str, v
 
 def rebound_transport_case(ctx, workdir: str, mode: str) -> None:
     """`gateway.transport` is a public attribute: an application that fails over to another bridge inside a session (connects
-    the new transport, assigns it, disconnects the old one itself) leaves the context with the transport that is in force
-    disconnected, the final registry written and nothing left."""
+    the new transport, assigns it, disconnects the old one itself) still leaves the context with the final registry written
+    and nothing left, and traffic inside the session goes through the transport in force."""
     from aiomysensors.gateway import Config, Gateway
     from aiomysensors.model.node import Node
 
@@ -1418,9 +1418,9 @@ def rebound_transport_case(ctx, workdir: str, mode: str) -> None:
 
         scenario_exception(ctx, result, case, "rebound-transport")
         return
-    if result["second_disconnected"] < 1:
-        ctx.violation("disconnect-not-called", "the application assigned another (connected) transport to gateway.transport "
-                                               "inside the session: leaving the context did not disconnect it", case)
+    # WHICH transport the exit disconnects after the application swapped the attribute is not stated (a behaviour-preserving
+    # refactor that registers its tear-down at entry disconnects the one it connected): observed, not judged
+    ctx.obs("rebound-transport:exit-disconnected-" + ("the-new-one" if result["second_disconnected"] else "the-one-it-connected"))
     if result["left"]:
         ctx.violation("task-left-after-exit", f"rebound transport: tasks left {result['left']}", case)
     status, disk = registry_on_disk(path)
